@@ -29,7 +29,7 @@ for key in sorted(final):
         "checks_run":[{"check":c,"tier":"quick","exit":int(e),"detected":e=='1'} for c,e in det(r['checks'])],
         "check_output":r['checks'][:600]}
     cross={"C10-w6m1":"caught by C07 (the merged file's search results differ when a merged file is merged again: C07/merge/repeated-search)","C12-w6m2":"caught by C08 in most quick runs (restart between imports with a reloaded snapshot: C08/oneshot/differs), not in all","C16-w6m2":"caught by C15 (cachesim: compaction after the change fails to skip a record: C15/cache/store-error)"}
-    notcaught={"C08-w6m2":"not caught by any check: needs a UDP flow that falls silent for more than five minutes of capture time and then resumes while other flows time out; the capture generator never produces a gap that long inside one flow","C09-w6m1":"not caught by any check: the PCAP-over-IP handler deadlocks only when its import request is submitted while the service loop is blocked on the handler's own channel, a real-time overlap the controller does not schedule (the feed runs outside the gates)"}
+    notcaught={"C09-w6m1":"not caught by any check: the PCAP-over-IP handler deadlocks only when its import request is submitted while the service loop is blocked on the handler's own channel, a real-time overlap the controller does not schedule (the feed runs outside the gates)"}
     if sid in notcaught: m2["not_caught"]=notcaught[sid]
     if sid in cross: m2["cross"]=cross[sid]
     json.dump(m2,open(os.path.join(out,'meta.json'),'w'),indent=1)
